@@ -1,6 +1,7 @@
 package main
 
 import (
+	"strconv"
 	"go/types"
 	"fmt"
 	"go/constant"
@@ -659,11 +660,11 @@ func c13req(p *Program, r *Report, rule string) {
 						}
 					}
 				}
-				if nonEmpty, known := decidedLike(pa, "len(DialOptions.Host) > 0"); !known || nonEmpty != hostSet {
+				if ne, known := nonEmpty(pa, "DialOptions.Host"); !known || ne != hostSet {
 					return false, "Host override inconsistent with opts.Host"
 				}
 				sp, hasSP := sets["Sec-WebSocket-Protocol"]
-				if nonEmpty, known := decidedLike(pa, "len(DialOptions.Subprotocols) > 0"); !known || nonEmpty != hasSP {
+				if ne, known := nonEmpty(pa, "DialOptions.Subprotocols"); !known || ne != hasSP {
 					return false, "Sec-WebSocket-Protocol inconsistent with opts.Subprotocols"
 				}
 				if hasSP && sp != `strings.Join(DialOptions.Subprotocols,",")` {
@@ -818,17 +819,40 @@ func c13verify(p *Program, r *Report, rule string) {
 	}
 	const protos = `(http.Header).Values(Response.Header,"Sec-WebSocket-Protocol")`
 	const proto = `elem(` + protos + `)[0]`
-	one := []string{`(len(` + protos + `) == 0)=false`, `(len(` + protos + `) > 1)=false`}
+	// the line counts are compared as intervals, not as spelled: len(x) == 1, !(len(x) == 0) ∧ !(len(x) > 1), len(x) != 1 … read the same
 	allowed := [][]string{
-		append(append([]string{}, base...), `(len(`+protos+`) == 0)=true`),
-		append(append(append([]string{}, base...), one...), `(`+proto+` == "")=true`),
-		append(append(append([]string{}, base...), one...), `(`+proto+` == "")=false`, `(len(DialOptions.Subprotocols) > 0)=true`, foldFn+`(elem(DialOptions.Subprotocols)[0],`+proto+`)=true`),
+		append([]string{}, base[:3]...),
+		append(append([]string{}, base[:3]...), `(`+proto+` == "")=true`),
+		append(append([]string{}, base[:3]...), `(`+proto+` == "")=false`, `(len(DialOptions.Subprotocols) > 0)=true`, foldFn+`(elem(DialOptions.Subprotocols)[0],`+proto+`)=true`),
+	}
+	lineCount := func(pa *Path, header string) string {
+		for _, e := range pa.Calls("(http.Header).Values") {
+			if argKey(e, 1) == strconv.Quote(header) {
+				k := "len(" + e.Res.Key() + ")"
+				switch {
+				case pa.IntWithin(k, 0, 4, 0, 0):
+					return "none"
+				case pa.IntWithin(k, 0, 4, 1, 1):
+					return "one"
+				}
+				return "unbounded"
+			}
+		}
+		return "not counted"
 	}
 	seen := map[int]bool{}
 	for _, s := range succ {
 		matched := false
+		var facts []string
+		for _, f := range s.Facts {
+			if strings.HasPrefix(f, "(len((http.Header).Values(Response.Header,") {
+				continue
+			}
+			facts = append(facts, f)
+		}
+		nAcc, nProt := lineCount(s.Path, "Sec-WebSocket-Accept"), lineCount(s.Path, "Sec-WebSocket-Protocol")
 		for i, a := range allowed {
-			if m, e := sameSet(s.Facts, a); len(m)+len(e) == 0 {
+			if m, e := sameSet(facts, append(append([]string{}, a...), base[4])); len(m)+len(e) == 0 && nAcc == "one" && (i == 0 && nProt == "none" || i > 0 && nProt == "one") {
 				matched = true
 				seen[i] = true
 			}
@@ -839,7 +863,7 @@ func c13verify(p *Program, r *Report, rule string) {
 			matched = false
 		}
 		r.Check(rule, "verifyServerResponse", "accept: "+strings.Join(s.Facts, " ∧ "), pos, matched,
-			"a response is accepted only with status 101, Connection∋Upgrade, Upgrade∋WebSocket, exactly one Sec-WebSocket-Accept line equal to secWebSocketAccept(key sent), no or exactly one Sec-WebSocket-Protocol line that is empty or ASCII-case-insensitively equal to a requested one, and then verifyServerExtensions(copts, header) decides", "facts: "+strings.Join(s.Facts, " ∧ "))
+			"a response is accepted only with status 101, Connection∋Upgrade, Upgrade∋WebSocket, exactly one Sec-WebSocket-Accept line equal to secWebSocketAccept(key sent), no or exactly one Sec-WebSocket-Protocol line that is empty or ASCII-case-insensitively equal to a requested one, and then verifyServerExtensions(copts, header) decides", fmt.Sprintf("Accept lines: %s, Protocol lines: %s, facts: %s", nAcc, nProt, strings.Join(s.Facts, " ∧ ")))
 	}
 	r.Check(rule, "verifyServerResponse", "all accept rows present", pos, len(seen) == 3, "the three accept rows (no subprotocol line / one empty line / one requested subprotocol) exist", fmt.Sprintf("%d of 3 among %d", len(seen), len(succ)))
 	for _, pa := range other {
